@@ -977,6 +977,9 @@ func (m *MutableOverlayWorld) MergeInto(other MutableWorld) error {
 
 func (m *MutableOverlayWorld) Snapshot() b6.World {
 	copy := *m
+	// The snapshot keeps the old index, which must resolve the features it
+	// returns against the snapshot rather than against the live world.
+	copy.index.features = &copy
 	m.base = &copy
 	m.features = NewFeaturesByID()
 	m.references = NewFeatureReferences()
